@@ -350,4 +350,87 @@ func TestSub_lengths(t *testing.T) {
 	})
 }
 
+// ---------------------------------------------------------------------------------------
+// uracil: the property's quantifier names U ("excluded from the self-inverse clause because it complements to A"): it is
+// a letter of the strings the other clauses speak about. Judged here with a reference of its own: U complements to A
+// (u to a), every other letter set-wise as above; every clause but the self-inverse one and the expansion.
+
+type UCase struct {
+	S string `json:"s"`
+	B string `json:"b"`
+}
+
+func rcU(s string) string {
+	out := make([]byte, len(s))
+	for i := 0; i < len(s); i++ {
+		switch s[i] {
+		case 'U':
+			out[len(s)-1-i] = 'A'
+		case 'u':
+			out[len(s)-1-i] = 'a'
+		default:
+			c, ok := ref.ComplementCode(s[i])
+			if !ok {
+				panic("rcU: not a nucleotide code: " + string(s[i]))
+			}
+			out[len(s)-1-i] = c
+		}
+	}
+	return string(out)
+}
+
+func checkU(c UCase) error {
+	s := c.S
+	want := rcU(s)
+	if got := transform.ReverseComplement(s); got != want {
+		return vk.Errf("ReverseComplement(%q) = %q, complement (U to A) reversed is %q", s, got, want)
+	}
+	if x := transform.Reverse(transform.Complement(s)); x != want {
+		return vk.Errf("Reverse(Complement(%q)) = %q but the reverse complement is %q", s, x, want)
+	}
+	if ab, ba := transform.ReverseComplement(s+c.B), transform.ReverseComplement(c.B)+transform.ReverseComplement(s); ab != ba || ab != rcU(s+c.B) {
+		return vk.Errf("rc(%q+%q) = %q, rc(b)+rc(a) = %q, reference %q", s, c.B, ab, ba, rcU(s+c.B))
+	}
+	if p := checks.IsPalindromic(s); p != (s == want) {
+		return vk.Errf("IsPalindromic(%q) = %v but its reverse complement is %q", s, p, want)
+	}
+	return nil
+}
+
+var subUracil = vk.Register(&vk.Sub[UCase]{Name: "uracil", Check: checkU, NonTrivial: func(c UCase) bool { return strings.ContainsAny(c.S, "Uu") }})
+
+func TestSub_uracil(t *testing.T) {
+	space := "all strings over the 15 upper-case codes and U up to length 3, over both cases (32 letters) up to length 2, and every palindrome h+rc(h) over ACGT with |h| <= 4 in which any subset of its T (upper case) or of its t (lower case) is written as U / u; each paired with 2 second operands"
+	vk.RunEnum(t, subUracil, space, true, func(yield func(UCase) bool) {
+		each := func(s string) bool {
+			return yield(UCase{S: s, B: ""}) && yield(UCase{S: s, B: "uAy"})
+		}
+		if !vk.EachString(ref.IUPACCodes+"U", 0, 3, each) || !vk.EachString(both+"Uu", 0, 2, each) {
+			return
+		}
+		vk.EachString("ACGT", 1, 4, func(h string) bool {
+			for _, p := range []string{h + ref.RevComp(h), strings.ToLower(h + ref.RevComp(h))} {
+				var ts []int
+				for i := 0; i < len(p); i++ {
+					if p[i] == 'T' || p[i] == 't' {
+						ts = append(ts, i)
+					}
+				}
+				for mask := 1; mask < 1<<len(ts); mask++ {
+					b := []byte(p)
+					for k, at := range ts {
+						if mask>>k&1 == 1 {
+							b[at] += 'U' - 'T'
+						}
+					}
+					if !each(string(b)) {
+						return false
+					}
+				}
+			}
+			return true
+		})
+	})
+}
+
 func TestReplay(t *testing.T) { vk.Replay(t) }
